@@ -132,6 +132,9 @@ func (e *Engine) execCall(s *State, fr *Frame, x *ssa.Call) ([]*State, bool) {
 func (e *Engine) callValue(s *State, fr *Frame, dst *ssa.Call, cc *ssa.CallCommon, fnv Value, args []Value, site ssa.Instruction) ([]*State, bool) {
 	// anchors "before"
 	calleeName := calleeShortName(cc)
+	if cc.IsInvoke() {
+		fr.curRecv = fnv
+	}
 	fr.callCnt[calleeName]++
 	anchor := fmt.Sprintf("%s#%d", calleeName, fr.callCnt[calleeName])
 	e.applyAts(s, fr, anchor, "before", cc, args, nil, site)
@@ -609,6 +612,16 @@ func (e *Engine) initGhosts(s *State, fr *Frame) {
 	}
 	for _, g := range c.Ghosts {
 		env := &Env{s: s, fr: fr, vars: map[string]Value{}, vtypes: map[string]types.Type{}}
+		if fr.fn.Pkg != nil {
+			env.pkg = fr.fn.Pkg.Pkg
+		}
+		if _, isNil := g.Init.(*ENil); isNil {
+			// typed zero value (nil error, nil slice, nil pointer)
+			if ty, _, err := e.resolveType(env, g.Type); err == nil && ty != nil {
+				fr.ghosts[g.Name] = s.zeroValue(ty)
+				continue
+			}
+		}
 		tv, err := e.eval(env, g.Init)
 		if err != nil {
 			e.bail("ghost %s init: %v", g.Name, err)
@@ -636,7 +649,11 @@ func (e *Engine) applyAts(s *State, fr *Frame, anchor, when string, cc *ssa.Call
 		sig := cc.Signature()
 		off := 0
 		if cc.IsInvoke() {
-			// args exclude receiver in invoke mode
+			// args exclude receiver in invoke mode; the interface value is bound as "recv"
+			if fr.curRecv != nil {
+				vars["recv"] = fr.curRecv
+				vtypes["recv"] = cc.Value.Type()
+			}
 		} else if sig.Recv() != nil {
 			off = 1
 			if len(args) > 0 {
